@@ -36,6 +36,20 @@ pub fn check_any(c: &AnyCase, obs: &mut Obs) -> Result<(), String> {
     let r = guard(|| Request::new(&c.url, &c.source, &c.rtype)).map_err(|p| format!("Request::new({:?}, {:?}, {:?}) panicked: {}", c.url, c.source, c.rtype, p))?;
     obs.inner_evals += 2;
     let p = guard(|| Request::preparsed(&c.url, &c.hostname, &c.source_hostname, &c.rtype, c.third)).map_err(|p| format!("Request::preparsed({:?}, ..) panicked: {}", c.url, p))?;
+    // a pre-parsed request is eligible for matching exactly when its URL's scheme is one of the
+    // four supported ones (a URL without any ':' is documented to be taken as https)
+    {
+        // (pre-parsed URLs are normalised: only lower-case scheme spellings are consistent tuples)
+        let scheme = c.url.split_once(':').map(|x| x.0.to_string());
+        let consistent = scheme.as_ref().map_or(true, |s| !s.is_empty() && s.bytes().all(|b| b.is_ascii_lowercase() || b.is_ascii_digit() || b"+.-".contains(&b)));
+        let want = match &scheme {
+            None => true,
+            Some(s) => ["http", "https", "ws", "wss"].contains(&s.as_str()),
+        };
+        if consistent && p.is_supported != want {
+            return Err(format!("Request::preparsed({:?}, ..): is_supported = {} but the URL's scheme is {:?}", c.url, p.is_supported, scheme));
+        }
+    }
     // whatever was built can be queried without panicking
     let rules: Vec<String> = vec!["||example.com^".into(), "/ads/*^x".into(), "@@/a$domain=example.com".into(), "*$removeparam=a".into(), "||example.com^$csp=x".into()];
     let e = build_engine(&rules, false, true, &[]);
@@ -192,6 +206,7 @@ const HOSTS: &[(&str, &str)] = &[
     ("a.b.ck", "a.b.ck"), ("x.a.b.ck", "a.b.ck"), ("www.ck", "www.ck"), ("sub.www.ck", "www.ck"), ("x.y.kawasaki.jp", "x.y.kawasaki.jp"), ("city.kawasaki.jp", "city.kawasaki.jp"),
     ("a.city.kawasaki.jp", "city.kawasaki.jp"), ("host.unknowntld", "host.unknowntld"), ("a.host.unknowntld", "host.unknowntld"), ("localhost", "localhost"),
     ("co.uk", "co.uk"), ("github.io", "github.io"), ("127.0.0.1", "127.0.0.1"), ("[::1]", "[::1]"), ("[2001:db8::1]", "[2001:db8::1]"), ("10.0.0.1", "10.0.0.1"),
+    ("1.bp.example.com", "example.com"), ("0.gravatar.example.org", "example.org"), ("3d.shop.example.co.uk", "example.co.uk"), ("4shared.example.net", "example.net"), ("9.9x.example.de", "example.de"),
     ("example.org", "example.org"), ("ads.example.org", "example.org"), ("a-b.example.org", "example.org"), ("xn--bcher-kva.de", "xn--bcher-kva.de"),
 ];
 const IDN_HOSTS: &[(&str, &str)] = &[("bücher.de", "bücher.de"), ("www.bücher.de", "bücher.de"), ("пример.рф", "пример.рф"), ("sub.пример.рф", "пример.рф"), ("münchen.example.com", "example.com"), ("例え.jp", "例え.jp")];
